@@ -6,7 +6,7 @@ From FF Require Import Lib.Word Gen.Consts_device_acpi_aml Gen.Consts_aml_tree A
   Aml.Tree Aml.TreeSpec Aml.TreeProofs Aml.TreeProofsOps Aml.TreeProofsFind Aml.Parser Aml.Grammar Aml.LexRoundtrip
   Aml.ParserTotalTree Aml.ParserTotalBase
   Aml.ParserFragBase Aml.ParserFragFirst Aml.ParserFragF0 Aml.ParserFragF0Shape Aml.ParserFragConn Aml.ParserFragF0Conn Aml.ParserFragWalk
-  Aml.ParserFragF0Top Aml.ParserFragRose Aml.ParserFragDev Aml.ParserFragF1 Aml.ParserFragF1First.
+  Aml.ParserFragF0Top Aml.ParserFragRose Aml.ParserFragDev Aml.ParserFragArgs Aml.ParserFragF1 Aml.ParserFragF1First.
 Import ListNotations.
 Local Open Scope N_scope.
 
@@ -14,38 +14,34 @@ Ltac Zify.zify_post_hook ::= Z.div_mod_to_equations.
 
 (** children contributed to the enclosing scope after the first pass / fuel of the pass *)
 Fixpoint clen (l : list item) : nat :=
-  match l with [] => O | IName _ :: t => S (S (clen t)) | IDev _ _ _ :: t => S (clen t) | IMeth _ _ _ _ :: t => S (clen t) end.
+  match l with [] => O | IName _ :: t => S (S (clen t)) | IBlk _ _ _ _ _ :: t => S (clen t) end.
 
 Fixpoint cfuel_item (it : item) : nat :=
-  match it with IName _ => 2%nat | IDev _ _ body => (6 + fold_right (fun x n => (cfuel_item x + n)%nat) O body)%nat
-              | IMeth _ _ _ body => (6 + fold_right (fun x n => (cfuel_item x + n)%nat) O body)%nat end.
+  match it with IName _ => 2%nat
+              | IBlk bk _ _ fa body => (6 + length (bfx bk fa) + fold_right (fun x n => (cfuel_item x + n)%nat) O body)%nat end.
 Definition cfuel (l : list item) : nat := fold_right (fun x n => (cfuel_item x + n)%nat) O l.
 Lemma cfuel_cons x t : cfuel (x :: t) = (cfuel_item x + cfuel t)%nat. Proof. reflexivity. Qed.
-Lemma cfuel_dev k seg body : cfuel_item (IDev k seg body) = (6 + cfuel body)%nat. Proof. reflexivity. Qed.
-Lemma cfuel_meth k seg fl body : cfuel_item (IMeth k seg fl body) = (6 + cfuel body)%nat. Proof. reflexivity. Qed.
+Lemma cfuel_blk bk k seg fa body : cfuel_item (IBlk bk k seg fa body) = (6 + length (bfx bk fa) + cfuel body)%nat. Proof. reflexivity. Qed.
 
 Lemma clen_le_cfuel l : (clen l <= cfuel l)%nat.
-Proof. induction l as [|[d|k seg body|k seg fl body] t IH]; [cbn; lia| | |]; rewrite cfuel_cons; cbn [clen]; [cbn [cfuel_item]|rewrite cfuel_dev|rewrite cfuel_meth]; lia. Qed.
+Proof. induction l as [|[d|bk k seg fa body] t IH]; [cbn; lia| |]; rewrite cfuel_cons; cbn [clen]; [cbn [cfuel_item]|rewrite cfuel_blk]; lia. Qed.
 
 Lemma lay2_cons h tbl b off x t : lay2 h tbl b off (x :: t) = lay2_item h tbl b off x ++ lay2 h tbl (b + N.of_nat (isz x)) (off + lenN (enc_item x)) t.
 Proof. reflexivity. Qed.
 
 Lemma lay2_nodes h tbl : forall l b off x, In x (rnodesl (lay2 h tbl b off l)) -> b <= x < b + N.of_nat (iszs l).
 Proof.
-  induction l as [|d rest IH|k seg body rest IHb IH|k seg fl body rest IHb IH] using items_ind; intros b off x Hx; [contradiction| | |].
+  induction l as [|d rest IH|bk k seg fa body rest IHb IH] using items_ind; intros b off x Hx; [contradiction| |].
   - rewrite lay2_cons, rnodesl_app in Hx. rewrite iszs_cons. apply in_app_or in Hx. destruct Hx as [Hx|Hx].
     + cbn [lay2_item rnodesl flat_map rnodes app In] in Hx. cbn [isz]. lia.
     + apply IH in Hx. cbn [isz] in *. lia.
-  - rewrite lay2_cons, rnodesl_app in Hx. rewrite iszs_cons, isz_dev. apply in_app_or in Hx. destruct Hx as [Hx|Hx].
-    + rewrite lay2_dev in Hx. unfold rnodesl in Hx. cbn [flat_map] in Hx. rewrite app_nil_r, rnodes_eq in Hx.
-      destruct Hx as [<-|Hx]; [lia|]. unfold rnodesl in Hx. cbn [flat_map] in Hx. rewrite !rnodes_eq in Hx. cbn [rnodesl flat_map app] in Hx.
-      destruct Hx as [<-|[<-|Hx]]; [lia|lia|]. rewrite app_nil_r in Hx. apply IHb in Hx. lia.
-    + apply IH in Hx. rewrite isz_dev in Hx. lia.
-  - rewrite lay2_cons, rnodesl_app in Hx. rewrite iszs_cons, isz_meth. apply in_app_or in Hx. destruct Hx as [Hx|Hx].
-    + rewrite lay2_meth in Hx. unfold rnodesl in Hx. cbn [flat_map] in Hx. rewrite app_nil_r, rnodes_eq in Hx.
-      destruct Hx as [<-|Hx]; [lia|]. unfold rnodesl in Hx. cbn [flat_map] in Hx. rewrite !rnodes_eq in Hx. cbn [rnodesl flat_map app] in Hx.
-      destruct Hx as [<-|[<-|[<-|Hx]]]; [lia|lia|lia|]. rewrite app_nil_r in Hx. apply IHb in Hx. lia.
-    + apply IH in Hx. rewrite isz_meth in Hx. lia.
+  - rewrite lay2_cons, rnodesl_app in Hx. rewrite iszs_cons, isz_blk. apply in_app_or in Hx. destruct Hx as [Hx|Hx].
+    + rewrite lay2_blk in Hx. unfold rnodesl in Hx. cbn [flat_map] in Hx. rewrite app_nil_r, rnodes_eq in Hx.
+      destruct Hx as [<-|Hx]; [lia|]. rewrite rnodesl_app in Hx. apply in_app_or in Hx. destruct Hx as [Hx|Hx].
+      * apply leaf_row_nodes in Hx. rewrite len_hd_pays in Hx. lia.
+      * unfold rnodesl in Hx. cbn [flat_map] in Hx. rewrite app_nil_r, rnodes_eq in Hx. unfold nfx in Hx.
+        destruct Hx as [<-|Hx]; [lia|]. apply IHb in Hx. lia.
+    + apply IH in Hx. rewrite isz_blk in Hx. lia.
 Qed.
 
 (** what the pass does to a range of slots *)
@@ -188,193 +184,82 @@ Proof.
   - intros y Hy. rewrite iszs_cons in Hy. cbn [isz] in Hy. rewrite pget_pupd. destruct (N.eqb_spec y b); [lia|]. apply Q4. lia.
 Qed.
 
-Lemma cspec_dev k seg body rest : CSpec body -> CSpec rest -> CSpec (IDev k seg body :: rest).
+Lemma bk_tai bk : (argCount (bk_af bk) <=? termArgIndex (bk_af bk)) = true /\ hasFlag 33 aml_pOpFlagNamed = true /\
+  (bk_op bk =? aml_pOpIntScopeBlock) = false.
+Proof. destruct bk; repeat split. Qed.
+
+Lemma hd_rows (bk : bkind) off k fa : forall p, In p (hd_pays h tbl bk off k fa) -> exists row, opInfo (y_info p) = Some row /\ y_op p <> opFreed.
 Proof.
-  intros IHb IH x pre post b off s g pl f ax R dpre dpost Q H Hk HD Hx Hlx Hrange Hh Htb Hdata Hoff Hok HR Hf K.
-  apply forallb_item_cons in Hok. destruct Hok as [Hd_ok Hok]. cbn [item_okb] in Hd_ok.
-  apply andb_prop in Hd_ok. destruct Hd_ok as [Hx' Hbody_ok]. apply andb_prop in Hx'. destruct Hx' as [_ Hpk]. apply pkglen_okb_adm in Hpk.
-  rewrite lay1_cons in Hk, HD |- *. rewrite iszs_cons, isz_dev in Hrange. rewrite cfuel_cons, cfuel_dev in Hf.
-  rewrite lay1_dev in Hk, HD |- *. rewrite map_app in Hk |- *. cbn [map ridx] in Hk |- *.
-  rewrite isz_dev in Hk, HD |- *. rewrite enc_dev in Hk, HD |- *.
-  set (v := k + lenN (seg_bytes seg ++ enc_items body)) in *.
-  pose proof (lenN_enc_pkglen k v Hpk) as Hlk.
-  assert (HlenI : lenN (enc_op OP_DEVICE ++ enc_pkglen k v ++ seg_bytes seg ++ enc_items body) = 2 + k + 4 + lenN (enc_items body)).
-  { rewrite !lenN_app, Hlk. change (lenN (enc_op OP_DEVICE)) with 2. change (lenN (seg_bytes seg)) with 4. lia. }
-  set (off1 := off + 2 + k + 4) in *.
-  set (B' := b + N.of_nat (3 + iszs body)) in *.
-  set (off' := off + lenN (enc_op OP_DEVICE ++ enc_pkglen k v ++ seg_bytes seg ++ enc_items body)) in *.
-  apply Forall_app in HD. destruct HD as [HDit HDrest].
-  pose proof (Forall_inv HDit) as DD. clear HDit.
-  destruct (Desc_inv _ _ _ _ _ DD) as (PD & KD & HD2). cbn [map ridx] in KD.
-  pose proof (Forall_inv HD2) as DP. pose proof (Forall_inv (Forall_inv_tail HD2)) as DS. clear HD2.
-  destruct (Desc_inv _ _ _ _ _ DP) as (PP & KP & _). destruct (Desc_inv _ _ _ _ _ DS) as (PS & KS & HDbody). cbn [map] in KP.
-  rewrite enc_items_cons, enc_dev in Hdata. fold v in Hdata.
-  replace (pre ++ [b] ++ map ridx (lay1 h tbl B' off' rest)) with ((pre ++ [b]) ++ map ridx (lay1 h tbl B' off' rest)) by (rewrite <- app_assoc; reflexivity).
-  eapply (IH x (pre ++ [b]) post B' off' s g pl f ax (R + 6 + cfuel body)%nat (dpre ++ enc_op OP_DEVICE ++ enc_pkglen k v ++ seg_bytes seg ++ enc_items body) dpost Q);
-    [exact H|rewrite Hk, <- !app_assoc; reflexivity|exact HDrest|exact Hx|exact Hlx|unfold B'; lia|exact Hh|exact Htb| | |exact Hok|lia|lia|].
-  { rewrite Hdata, <- !app_assoc. reflexivity. }
-  { unfold off'. rewrite Hoff. symmetry. apply lenN_app. }
-  intros t1 g1 pl1 H1 [Q1 Q2 Q3 Q4].
-  assert (Hxne : x <> b /\ x <> b + 1 /\ x <> b + 2) by lia. destruct Hxne as (Hxb & Hxb1 & Hxb2).
-  assert (Hout1 : forall y, b <= y < b + N.of_nat (3 + iszs body) -> (y < B' \/ B' + N.of_nat (iszs rest) <= y) /\ y <> x) by (intros y Hy; unfold B'; lia).
-  assert (KD1 : kids g1 b = [b + 1; b + 2]) by (rewrite Q3 by (apply Hout1; lia); exact KD).
-  assert (KP1 : kids g1 (b + 1) = []) by (rewrite Q3 by (apply Hout1; lia); exact KP).
-  assert (KS1 : kids g1 (b + 2) = map ridx (lay1 h tbl (b + 3) off1 body)) by (rewrite Q3 by (apply Hout1; lia); exact KS).
-  assert (PD1 : pget pl1 b = Some (dev_pay h off name_zero)) by (rewrite Q4 by (apply Hout1; lia); exact PD).
-  assert (PP1 : pget pl1 (b + 1) = Some (pth_pay h tbl (off + 2 + k))) by (rewrite Q4 by (apply Hout1; lia); exact PP).
-  assert (PS1 : pget pl1 (b + 2) = Some (sb_pay h off1)) by (rewrite Q4 by (apply Hout1; lia); exact PS).
-  assert (Px1 : pget pl1 x = Some ax) by (rewrite Q4 by (unfold B'; lia); exact Hx).
-  assert (HDbody1 : Forall (Desc g1 pl1) (lay1 h tbl (b + 3) off1 body)).
-  { apply (Desc_frame_l g pl); [exact HDbody|]. intros y Hy. apply lay1_nodes in Hy.
-    split; [apply Q3; apply Hout1; lia|apply Q4; apply Hout1; lia]. }
-  set (l2 := map ridx (lay2 h tbl B' off' rest) ++ post) in *.
-  assert (Hk1 : kids g1 x = pre ++ b :: l2) by (rewrite Q1, <- !app_assoc; reflexivity).
-  rewrite last_app_one.
-  assert (EF : exists f', (f - clen rest = S (S (S (S (S (S (S f')))))))%nat).
-  { pose proof (clen_le_cfuel rest). exists (f - clen rest - 7)%nat. lia. }
-  destruct EF as (f' & EF). rewrite EF.
-  (* the loop of the enclosing scope reaches the Device *)
-  rewrite connectNamed_loop_S. rewrite (rep_not_Inv _ _ _ _ _ H1 PD1).
-  apply wp_bind. eapply wp_objectAt_rep; [exact H1|exact PD1|discriminate|].
-  apply wp_bind. eapply wp_rdf_rep; [exact H1|exact PD1|discriminate|]. intros od _ Hidx _ _. rewrite Hidx.
-  (* connectNamedObjArgs on the Device *)
-  apply wp_bind. rewrite connectNamedObjArgs_S.
-  apply wp_bind. eapply wp_objectAt_rep; [exact H1|exact PD1|discriminate|].
-  apply wp_bind. eapply wp_rdf_rep; [exact H1|exact PD1|discriminate|]. intros od2 _ _ _ Hlast. rewrite Hlast, KD1. cbn [last].
-  rewrite connectNamed_loop_S. rewrite (rep_not_Inv _ _ _ _ _ H1 PS1).
-  apply wp_bind. eapply wp_objectAt_rep; [exact H1|exact PS1|discriminate|].
-  apply wp_bind. eapply wp_rdf_rep; [exact H1|exact PS1|discriminate|]. intros os _ Hidxs _ _. rewrite Hidxs.
-  (* connectNamedObjArgs on its ScopeBlock *)
-  apply wp_bind. rewrite connectNamedObjArgs_S.
-  apply wp_bind. eapply wp_objectAt_rep; [exact H1|exact PS1|discriminate|].
-  apply wp_bind. eapply wp_rdf_rep; [exact H1|exact PS1|discriminate|]. intros os2 _ _ _ Hlasts. rewrite Hlasts, KS1.
-  change (map ridx (lay1 h tbl (b + 3) off1 body)) with ([] ++ map ridx (lay1 h tbl (b + 3) off1 body)).
-  eapply (IHb (b + 2) [] [] (b + 3) off1 (with_tree s t1) g1 pl1 _ (sb_pay h off1) (R + 2)%nat (dpre ++ enc_op OP_DEVICE ++ enc_pkglen k v ++ seg_bytes seg) (enc_items rest ++ dpost));
-    [exact H1|rewrite KS1, app_nil_r; reflexivity|exact HDbody1|exact PS1|discriminate|lia|exact Hh|exact Htb| | |exact Hbody_ok|lia|pose proof (clen_le_cfuel rest); lia|].
-  { rewrite Hdata, <- !app_assoc. reflexivity. }
-  { unfold off1. rewrite !lenN_app, Hlk, Hoff. change (lenN (enc_op OP_DEVICE)) with 2. change (lenN (seg_bytes seg)) with 4. lia. }
-  intros t2 g2 pl2 H2 [U1 U2 U3 U4]. cbn [last app] in U1 |- *. rewrite app_nil_r in U1.
-  assert (Hout2 : forall y, (y < b + 3 \/ b + 3 + N.of_nat (iszs body) <= y) -> y <> b + 2 -> kids g2 y = kids g1 y) by exact U3.
-  assert (EF3 : exists f3, (S (S (S f')) - clen body = S f3)%nat).
-  { pose proof (clen_le_cfuel body). pose proof (clen_le_cfuel rest). exists (S (S (S f')) - clen body - 1)%nat. lia. }
-  destruct EF3 as (f3 & EF3). rewrite EF3. rewrite connectNamed_loop_S, N.eqb_refl. apply wp_ret.
-  (* back in the loop of the Device, at the ScopeBlock *)
-  change (negb (pres_eqb ROk ROk)) with false. cbv iota zeta.
-  assert (PS2 : pget pl2 (b + 2) = Some (sb_pay h off1)) by (rewrite U4 by lia; exact PS1).
-  assert (PP2 : pget pl2 (b + 1) = Some (pth_pay h tbl (off + 2 + k))) by (rewrite U4 by lia; exact PP1).
-  assert (PD2 : pget pl2 b = Some (dev_pay h off name_zero)) by (rewrite U4 by lia; exact PD1).
-  assert (Px2 : pget pl2 x = Some ax) by (rewrite U4 by lia; exact Px1).
-  assert (KD2 : kids g2 b = [b + 1; b + 2]) by (rewrite U3 by lia; exact KD1).
-  assert (KP2 : kids g2 (b + 1) = []) by (rewrite U3 by lia; exact KP1).
-  assert (Kx2 : kids g2 x = pre ++ b :: l2) by (rewrite U3 by lia; exact Hk1).
-  apply wp_bind. eapply wp_rdo_rep; [exact H2|exact PS2|discriminate|]. intros aos Hpays _ _ _.
-  rewrite (pay_info _ _ Hpays). apply wp_bind. eapply wp_info; [reflexivity|]. cbv beta iota.
-  apply wp_bind, wp_get. rewrite (pay_op _ _ Hpays). cbn [sb_pay y_op].
-  change (aml_pOpIntScopeBlock =? aml_pOpIntScopeBlock) with true. rewrite orb_true_r.
-  apply wp_bind. eapply (wp_rdf_sib False b [b + 1] (b + 2) []); [exact H2|exact KD2|]. intros o' _ _ Hprev _ _. rewrite Hprev. cbn [last].
-  eapply (CNloop_leaf _ b (b + 1) [] [b + 2] (pth_pay h tbl (off + 2 + k)) (aml_pOpIntNamePath, 8, 0));
-    [exact H2|exact KD2|exact PP2|discriminate|exact KP2|reflexivity|].
-  cbn [last]. rewrite connectNamed_loop_S, N.eqb_refl. apply wp_ret.
-  (* back in the loop of the enclosing scope: the Device gets its name *)
-  change (negb (pres_eqb ROk ROk)) with false. cbv iota zeta.
-  apply wp_bind. eapply wp_rdo_rep; [exact H2|exact PD2|discriminate|]. intros aod Hpayd _ Hfirst _.
-  rewrite (pay_info _ _ Hpayd). apply wp_bind. eapply wp_info; [reflexivity|]. cbv beta iota.
-  apply wp_bind, wp_get. rewrite (pay_th _ _ Hpayd), (pay_op _ _ Hpayd), Hfirst, KD2. cbn [hd dev_pay y_th y_op]. scbn. rewrite Hh, N.eqb_refl.
-  rewrite (rep_not_Inv _ _ _ _ _ H2 PP2).
-  change (negb (hasFlag 33 aml_pOpFlagNamed) || negb true || false || (aml_pOpDevice =? aml_pOpIntScopeBlock)) with false. cbv iota.
-  apply wp_bind. eapply wp_objectAt_rep; [exact H2|exact PP2|discriminate|].
-  apply wp_bind. eapply wp_rdo_rep; [exact H2|exact PP2|discriminate|]. intros nop Hpayp _ _ _.
-  unfold valueBytes. rewrite (pay_val _ _ Hpayp). cbn [pth_pay y_val s_len]. change (4 <? aml_amlNameLen) with false. cbv iota.
-  assert (Hsl : slice_bytes (with_tree (with_tree s t1) t2) tbl (mkSlice (Some (off + 2 + k)) 4) = Ok (seg_bytes seg)).
-  { replace (off + 2 + k) with (lenN (dpre ++ enc_op OP_DEVICE ++ enc_pkglen k v)).
-    2:{ rewrite !lenN_app, Hlk, Hoff. change (lenN (enc_op OP_DEVICE)) with 2. lia. }
-    eapply (slice_at _ tbls tbl data _ (seg_bytes seg) (enc_items body ++ enc_items rest ++ dpost)); [exact Htb|exact Hnth| |reflexivity].
-    rewrite Hdata, <- !app_assoc. reflexivity. }
-  apply wp_bind. eapply wp_bytesOf'; [exact Hsl|].
-  apply wp_bind. unfold setNameFrom. rewrite seg_bytes_nm. cbn [rev app].
-  eapply (wp_wrf_rep False _ _ (ys_name (seg_nm seg))); [exact H2|exact PD2|discriminate|apply st_name|].
-  intros t3 H3. set (pl3 := pupd pl2 b (ys_name (seg_nm seg))) in *.
-  assert (Hlive_b : live t3 b).
-  { apply (R_live_glive _ _ (rep_R _ _ _ H3)). eapply rep_live; [exact H2|exact PD2|discriminate]. }
-  apply wp_bind. eapply wp_tq; [apply (NumArgs_spec _ _ (rep_R _ _ _ H3) b Hlive_b)|].
-  rewrite KD2. cbn [length]. change (N.of_nat 2) with 2.
-  change ((2 =? argCount 67855) || (argCount 67855 <=? termArgIndex 67855)) with true. cbv iota.
-  apply wp_bind. eapply (wp_rdf_sib False x pre b l2); [exact H3|exact Kx2|]. intros o3 _ _ Hprev3 _ _. rewrite Hprev3.
-  replace (S (S (S (S (S (S f')))))) with (f - clen (IDev k seg body :: rest))%nat by (cbn [clen]; lia).
-  apply (K t3 _ _ H3).
-  (* the description of the result *)
-  rewrite lay2_cons, lay2_dev, isz_dev, enc_dev. fold v. fold off1. fold B'. fold off'. constructor.
-  - rewrite Kx2. rewrite map_app. cbn [map ridx]. unfold l2. rewrite <- !app_assoc. reflexivity.
-  - apply Forall_app. split.
-    + constructor; [|constructor]. constructor.
-      * unfold pl3. rewrite pget_pupd, N.eqb_refl, PD2. reflexivity.
-      * exact KD2.
-      * constructor; [|constructor; [|constructor]].
-        -- constructor; [unfold pl3; rewrite pget_pupd; destruct (N.eqb_spec (b + 1) b); [lia|exact PP2]|exact KP2|constructor].
-        -- constructor; [unfold pl3; rewrite pget_pupd; destruct (N.eqb_spec (b + 2) b); [lia|exact PS2]|exact U1|].
-           apply (Desc_frame_l g2 pl2); [exact U2|]. intros y Hy. apply lay2_nodes in Hy. split; [reflexivity|].
-           unfold pl3. rewrite pget_pupd. destruct (N.eqb_spec y b); [lia|reflexivity].
-    + apply (Desc_frame_l g1 pl1); [exact Q2|]. intros y Hy. apply lay2_nodes in Hy. unfold B' in Hy.
-      split; [apply U3; lia|]. unfold pl3. rewrite pget_pupd. destruct (N.eqb_spec y b); [lia|]. apply U4. lia.
-  - intros y Hy Hyx. rewrite iszs_cons, isz_dev in Hy. rewrite U3 by lia. apply Q3; [unfold B'; lia|exact Hyx].
-  - intros y Hy. rewrite iszs_cons, isz_dev in Hy. unfold pl3. rewrite pget_pupd. destruct (N.eqb_spec y b); [lia|]. rewrite U4 by lia. apply Q4. unfold B'. lia.
+  unfold hd_pays. intros p [<-|Hp]; [eexists; split; [reflexivity|discriminate]|].
+  generalize dependent (off + blo bk + k + 4). generalize (bfx bk fa). induction f as [|[w v] r IH]; intros o Hp; [contradiction|].
+  cbn [fx_pays In] in Hp. destruct Hp as [<-|Hp]; [destruct w; (eexists; split; [reflexivity|discriminate])|]. apply (IH _ Hp).
 Qed.
 
-Lemma cspec_meth k seg fl body rest : CSpec body -> CSpec rest -> CSpec (IMeth k seg fl body :: rest).
+Lemma last_seqN b n : last (seqN b (S n)) InvalidIndex = b + N.of_nat n.
+Proof. rewrite seqN_snoc. apply last_app_one. Qed.
+
+Lemma cspec_blk bk k seg fa body rest : CSpec body -> CSpec rest -> CSpec (IBlk bk k seg fa body :: rest).
 Proof.
   intros IHb IH x pre post b off s g pl f ax R dpre dpost Q H Hk HD Hx Hlx Hrange Hh Htb Hdata Hoff Hok HR Hf K.
   apply forallb_item_cons in Hok. destruct Hok as [Hd_ok Hok]. cbn [item_okb] in Hd_ok.
   apply andb_prop in Hd_ok. destruct Hd_ok as [Hx' Hbody_ok]. apply andb_prop in Hx'. destruct Hx' as [_ Hpk]. apply pkglen_okb_adm in Hpk.
-  rewrite lay1_cons in Hk, HD |- *. rewrite iszs_cons, isz_meth in Hrange. rewrite cfuel_cons, cfuel_meth in Hf.
-  rewrite lay1_meth in Hk, HD |- *. rewrite map_app in Hk |- *. cbn [map ridx] in Hk |- *.
-  rewrite isz_meth in Hk, HD |- *. rewrite enc_meth in Hk, HD |- *.
-  set (v := k + lenN (seg_bytes seg ++ [fl] ++ enc_items body)) in *.
+  destruct (bk_tai bk) as (Htai & Hnamed & Hnsb).
+  rewrite lay1_cons in Hk, HD |- *. rewrite iszs_cons, isz_blk in Hrange. rewrite cfuel_cons, cfuel_blk in Hf.
+  rewrite lay1_blk in Hk, HD |- *. rewrite map_app in Hk |- *. cbn [map ridx] in Hk |- *.
+  rewrite isz_blk in Hk, HD |- *. rewrite enc_blk in Hk, HD |- *.
+  set (l := bfx bk fa) in *. set (nf := length l) in *. set (lo := blo bk) in *.
+  assert (Hm : nfx bk fa = N.of_nat nf) by reflexivity. rewrite Hm in *.
+  set (hdp := hd_pays h tbl bk off k fa) in *.
+  assert (Hlh : length hdp = S nf) by apply len_hd_pays.
+  set (v := k + lenN (seg_bytes seg ++ enc_fx l ++ enc_items body)) in *.
   pose proof (lenN_enc_pkglen k v Hpk) as Hlk.
-  assert (HlenI : lenN (enc_op OP_METHOD ++ enc_pkglen k v ++ seg_bytes seg ++ [fl] ++ enc_items body) = 1 + k + 5 + lenN (enc_items body)).
-  { rewrite !lenN_app, Hlk. change (lenN (enc_op OP_METHOD)) with 1. change (lenN (seg_bytes seg)) with 4. change (lenN [fl]) with 1. lia. }
-  set (off1 := off + 1 + k + 5) in *.
-  set (B' := b + N.of_nat (4 + iszs body)) in *.
-  set (off' := off + lenN (enc_op OP_METHOD ++ enc_pkglen k v ++ seg_bytes seg ++ [fl] ++ enc_items body)) in *.
+  assert (HlenI : lenN (enc_op (bk_op bk) ++ enc_pkglen k v ++ seg_bytes seg ++ enc_fx l ++ enc_items body) = lo + k + 4 + lenN (enc_fx l) + lenN (enc_items body)).
+  { rewrite !lenN_app, Hlk. change (lenN (enc_op (bk_op bk))) with lo. change (lenN (seg_bytes seg)) with 4. lia. }
+  set (off1 := sb_off bk off k fa) in *.
+  assert (Hoff1 : off1 = off + lo + k + 4 + lenN (enc_fx l)) by reflexivity.
+  set (sbi := b + 2 + N.of_nat nf) in *.
+  set (B' := b + N.of_nat (3 + nf + iszs body)) in *.
+  set (off' := off + lenN (enc_op (bk_op bk) ++ enc_pkglen k v ++ seg_bytes seg ++ enc_fx l ++ enc_items body)) in *.
   apply Forall_app in HD. destruct HD as [HDit HDrest].
   pose proof (Forall_inv HDit) as DD. clear HDit.
-  destruct (Desc_inv _ _ _ _ _ DD) as (PD & KD & HD2). cbn [map ridx] in KD.
-  pose proof (Forall_inv HD2) as DP. pose proof (Forall_inv (Forall_inv_tail HD2)) as DB. pose proof (Forall_inv (Forall_inv_tail (Forall_inv_tail HD2))) as DS. clear HD2.
-  destruct (Desc_inv _ _ _ _ _ DP) as (PP & KP & _). destruct (Desc_inv _ _ _ _ _ DB) as (PB & KB & _). destruct (Desc_inv _ _ _ _ _ DS) as (PS & KS & HDbody). cbn [map] in KP, KB.
-  rewrite enc_items_cons, enc_meth in Hdata. fold v in Hdata.
+  destruct (Desc_inv _ _ _ _ _ DD) as (PD & KD & HD2). rewrite map_app, leaf_row_idx, Hlh in KD. cbn [map ridx] in KD.
+  apply Forall_app in HD2. destruct HD2 as [HDrow HDsb]. pose proof (Forall_inv HDsb) as DS. clear HDsb.
+  destruct (Desc_inv _ _ _ _ _ DS) as (PS & KS & HDbody).
+  pose proof (leaf_row_desc_inv _ _ _ _ HDrow) as Hrow.
+  rewrite enc_items_cons, enc_blk in Hdata. fold l v in Hdata.
   replace (pre ++ [b] ++ map ridx (lay1 h tbl B' off' rest)) with ((pre ++ [b]) ++ map ridx (lay1 h tbl B' off' rest)) by (rewrite <- app_assoc; reflexivity).
-  eapply (IH x (pre ++ [b]) post B' off' s g pl f ax (R + 6 + cfuel body)%nat (dpre ++ enc_op OP_METHOD ++ enc_pkglen k v ++ seg_bytes seg ++ [fl] ++ enc_items body) dpost Q);
+  eapply (IH x (pre ++ [b]) post B' off' s g pl f ax (R + 6 + nf + cfuel body)%nat (dpre ++ enc_op (bk_op bk) ++ enc_pkglen k v ++ seg_bytes seg ++ enc_fx l ++ enc_items body) dpost Q);
     [exact H|rewrite Hk, <- !app_assoc; reflexivity|exact HDrest|exact Hx|exact Hlx|unfold B'; lia|exact Hh|exact Htb| | |exact Hok|lia|lia|].
   { rewrite Hdata, <- !app_assoc. reflexivity. }
   { unfold off'. rewrite Hoff. symmetry. apply lenN_app. }
   intros t1 g1 pl1 H1 [Q1 Q2 Q3 Q4].
-  assert (Hxne : x <> b /\ x <> b + 1 /\ x <> b + 2 /\ x <> b + 3) by lia. destruct Hxne as (Hxb & Hxb1 & Hxb2 & Hxb3).
-  assert (Hout1 : forall y, b <= y < b + N.of_nat (4 + iszs body) -> (y < B' \/ B' + N.of_nat (iszs rest) <= y) /\ y <> x) by (intros y Hy; unfold B'; lia).
-  assert (KD1 : kids g1 b = [b + 1; b + 2; b + 3]) by (rewrite Q3 by (apply Hout1; lia); exact KD).
-  assert (KP1 : kids g1 (b + 1) = []) by (rewrite Q3 by (apply Hout1; lia); exact KP).
-  assert (KB1 : kids g1 (b + 2) = []) by (rewrite Q3 by (apply Hout1; lia); exact KB).
-  assert (KS1 : kids g1 (b + 3) = map ridx (lay1 h tbl (b + 4) off1 body)) by (rewrite Q3 by (apply Hout1; lia); exact KS).
-  assert (PD1 : pget pl1 b = Some (mth_pay h off name_zero)) by (rewrite Q4 by (apply Hout1; lia); exact PD).
-  assert (PP1 : pget pl1 (b + 1) = Some (pth_pay h tbl (off + 1 + k))) by (rewrite Q4 by (apply Hout1; lia); exact PP).
-  assert (PB1 : pget pl1 (b + 2) = Some (byt_pay h (off + 1 + k + 4) fl)) by (rewrite Q4 by (apply Hout1; lia); exact PB).
-  assert (PS1 : pget pl1 (b + 3) = Some (sb_pay h off1)) by (rewrite Q4 by (apply Hout1; lia); exact PS).
+  assert (Hout1 : forall y, b <= y < b + N.of_nat (3 + nf + iszs body) -> (y < B' \/ B' + N.of_nat (iszs rest) <= y) /\ y <> x) by (intros y Hy; unfold B'; lia).
+  assert (KD1 : kids g1 b = seqN (b + 1) (S nf) ++ [sbi]) by (rewrite Q3 by (apply Hout1; lia); exact KD).
+  assert (KS1 : kids g1 sbi = map ridx (lay1 h tbl (b + 3 + N.of_nat nf) off1 body)) by (rewrite Q3 by (apply Hout1; unfold sbi; lia); exact KS).
+  assert (PD1 : pget pl1 b = Some (blk_pay h bk off name_zero)) by (rewrite Q4 by (apply Hout1; lia); exact PD).
+  assert (PS1 : pget pl1 sbi = Some (sb_pay h off1)) by (rewrite Q4 by (apply Hout1; unfold sbi; lia); exact PS).
+  assert (Hrow1 : forall i p, nth_error hdp i = Some p -> pget pl1 (b + 1 + N.of_nat i) = Some p /\ kids g1 (b + 1 + N.of_nat i) = []).
+  { intros i p Hi. assert (Hilt : (i < S nf)%nat) by (rewrite <- Hlh; apply nth_error_Some; congruence).
+    destruct (Hrow i p Hi) as (A & B0). split; [rewrite Q4 by (apply Hout1; lia); exact A|rewrite Q3 by (apply Hout1; lia); exact B0]. }
   assert (Px1 : pget pl1 x = Some ax) by (rewrite Q4 by (unfold B'; lia); exact Hx).
-  assert (HDbody1 : Forall (Desc g1 pl1) (lay1 h tbl (b + 4) off1 body)).
+  assert (HDbody1 : Forall (Desc g1 pl1) (lay1 h tbl (b + 3 + N.of_nat nf) off1 body)).
   { apply (Desc_frame_l g pl); [exact HDbody|]. intros y Hy. apply lay1_nodes in Hy.
     split; [apply Q3; apply Hout1; lia|apply Q4; apply Hout1; lia]. }
   set (l2 := map ridx (lay2 h tbl B' off' rest) ++ post) in *.
   assert (Hk1 : kids g1 x = pre ++ b :: l2) by (rewrite Q1, <- !app_assoc; reflexivity).
   rewrite last_app_one.
-  assert (EF : exists f', (f - clen rest = S (S (S (S (S (S (S f')))))))%nat).
-  { pose proof (clen_le_cfuel rest). exists (f - clen rest - 7)%nat. lia. }
+  assert (EF : exists f', (f - clen rest = S (S (S (S (S (S (S (nf + f'))))))))%nat).
+  { pose proof (clen_le_cfuel rest). exists (f - clen rest - 7 - nf)%nat. lia. }
   destruct EF as (f' & EF). rewrite EF.
-  (* the loop of the enclosing scope reaches the Device *)
+  (* the loop of the enclosing scope reaches the block object *)
   rewrite connectNamed_loop_S. rewrite (rep_not_Inv _ _ _ _ _ H1 PD1).
-  apply wp_bind. eapply wp_objectAt_rep; [exact H1|exact PD1|discriminate|].
-  apply wp_bind. eapply wp_rdf_rep; [exact H1|exact PD1|discriminate|]. intros od _ Hidx _ _. rewrite Hidx.
-  (* connectNamedObjArgs on the Device *)
+  assert (Hlb : y_op (blk_pay h bk off name_zero) <> opFreed) by (destruct bk; discriminate).
+  apply wp_bind. eapply wp_objectAt_rep; [exact H1|exact PD1|exact Hlb|].
+  apply wp_bind. eapply wp_rdf_rep; [exact H1|exact PD1|exact Hlb|]. intros od _ Hidx _ _. rewrite Hidx.
+  (* connectNamedObjArgs on the block object *)
   apply wp_bind. rewrite connectNamedObjArgs_S.
-  apply wp_bind. eapply wp_objectAt_rep; [exact H1|exact PD1|discriminate|].
-  apply wp_bind. eapply wp_rdf_rep; [exact H1|exact PD1|discriminate|]. intros od2 _ _ _ Hlast. rewrite Hlast, KD1. cbn [last].
+  apply wp_bind. eapply wp_objectAt_rep; [exact H1|exact PD1|exact Hlb|].
+  apply wp_bind. eapply wp_rdf_rep; [exact H1|exact PD1|exact Hlb|]. intros od2 _ _ _ Hlast. rewrite Hlast, KD1, last_app_one.
   rewrite connectNamed_loop_S. rewrite (rep_not_Inv _ _ _ _ _ H1 PS1).
   apply wp_bind. eapply wp_objectAt_rep; [exact H1|exact PS1|discriminate|].
   apply wp_bind. eapply wp_rdf_rep; [exact H1|exact PS1|discriminate|]. intros os _ Hidxs _ _. rewrite Hidxs.
@@ -382,90 +267,92 @@ Proof.
   apply wp_bind. rewrite connectNamedObjArgs_S.
   apply wp_bind. eapply wp_objectAt_rep; [exact H1|exact PS1|discriminate|].
   apply wp_bind. eapply wp_rdf_rep; [exact H1|exact PS1|discriminate|]. intros os2 _ _ _ Hlasts. rewrite Hlasts, KS1.
-  change (map ridx (lay1 h tbl (b + 4) off1 body)) with ([] ++ map ridx (lay1 h tbl (b + 4) off1 body)).
-  eapply (IHb (b + 3) [] [] (b + 4) off1 (with_tree s t1) g1 pl1 _ (sb_pay h off1) (R + 2)%nat (dpre ++ enc_op OP_METHOD ++ enc_pkglen k v ++ seg_bytes seg ++ [fl]) (enc_items rest ++ dpost));
-    [exact H1|rewrite KS1, app_nil_r; reflexivity|exact HDbody1|exact PS1|discriminate|lia|exact Hh|exact Htb| | |exact Hbody_ok|lia|pose proof (clen_le_cfuel rest); lia|].
+  change (map ridx (lay1 h tbl (b + 3 + N.of_nat nf) off1 body)) with ([] ++ map ridx (lay1 h tbl (b + 3 + N.of_nat nf) off1 body)).
+  eapply (IHb sbi [] [] (b + 3 + N.of_nat nf) off1 (with_tree s t1) g1 pl1 _ (sb_pay h off1) (R + 2)%nat (dpre ++ enc_op (bk_op bk) ++ enc_pkglen k v ++ seg_bytes seg ++ enc_fx l) (enc_items rest ++ dpost));
+    [exact H1|rewrite KS1, app_nil_r; reflexivity|exact HDbody1|exact PS1|discriminate|unfold sbi; lia|exact Hh|exact Htb| | |exact Hbody_ok|lia|pose proof (clen_le_cfuel rest); lia|].
   { rewrite Hdata, <- !app_assoc. reflexivity. }
-  { unfold off1. rewrite !lenN_app, Hlk, Hoff. change (lenN (enc_op OP_METHOD)) with 1. change (lenN (seg_bytes seg)) with 4. change (lenN [fl]) with 1. lia. }
+  { rewrite Hoff1. rewrite !lenN_app, Hlk, Hoff. change (lenN (enc_op (bk_op bk))) with lo. change (lenN (seg_bytes seg)) with 4. lia. }
   intros t2 g2 pl2 H2 [U1 U2 U3 U4]. cbn [last app] in U1 |- *. rewrite app_nil_r in U1.
-  assert (Hout2 : forall y, (y < b + 4 \/ b + 4 + N.of_nat (iszs body) <= y) -> y <> b + 3 -> kids g2 y = kids g1 y) by exact U3.
-  assert (EF3 : exists f3, (S (S (S f')) - clen body = S f3)%nat).
-  { pose proof (clen_le_cfuel body). pose proof (clen_le_cfuel rest). exists (S (S (S f')) - clen body - 1)%nat. lia. }
+  assert (EF3 : exists f3, (S (S (S (nf + f'))) - clen body = S f3)%nat).
+  { pose proof (clen_le_cfuel body). pose proof (clen_le_cfuel rest). exists (S (S (S (nf + f'))) - clen body - 1)%nat. lia. }
   destruct EF3 as (f3 & EF3). rewrite EF3. rewrite connectNamed_loop_S, N.eqb_refl. apply wp_ret.
-  (* back in the loop of the Device, at the ScopeBlock *)
+  (* back in the loop of the block object, at the ScopeBlock *)
   change (negb (pres_eqb ROk ROk)) with false. cbv iota zeta.
-  assert (PS2 : pget pl2 (b + 3) = Some (sb_pay h off1)) by (rewrite U4 by lia; exact PS1).
-  assert (PP2 : pget pl2 (b + 1) = Some (pth_pay h tbl (off + 1 + k))) by (rewrite U4 by lia; exact PP1).
-  assert (PB2 : pget pl2 (b + 2) = Some (byt_pay h (off + 1 + k + 4) fl)) by (rewrite U4 by lia; exact PB1).
-  assert (PD2 : pget pl2 b = Some (mth_pay h off name_zero)) by (rewrite U4 by lia; exact PD1).
-  assert (Px2 : pget pl2 x = Some ax) by (rewrite U4 by lia; exact Px1).
-  assert (KD2 : kids g2 b = [b + 1; b + 2; b + 3]) by (rewrite U3 by lia; exact KD1).
-  assert (KP2 : kids g2 (b + 1) = []) by (rewrite U3 by lia; exact KP1).
-  assert (KB2 : kids g2 (b + 2) = []) by (rewrite U3 by lia; exact KB1).
-  assert (Kx2 : kids g2 x = pre ++ b :: l2) by (rewrite U3 by lia; exact Hk1).
+  assert (Hin2 : forall y, b <= y < b + 2 + N.of_nat nf \/ y = x -> kids g2 y = kids g1 y /\ pget pl2 y = pget pl1 y).
+  { intros y Hy. split; [apply U3; unfold sbi; lia|apply U4; lia]. }
+  assert (PS2 : pget pl2 sbi = Some (sb_pay h off1)) by (rewrite U4 by (unfold sbi; lia); exact PS1).
+  assert (PD2 : pget pl2 b = Some (blk_pay h bk off name_zero)) by (rewrite (proj2 (Hin2 b ltac:(lia))); exact PD1).
+  assert (Px2 : pget pl2 x = Some ax) by (rewrite (proj2 (Hin2 x ltac:(lia))); exact Px1).
+  assert (KD2 : kids g2 b = seqN (b + 1) (S nf) ++ [sbi]) by (rewrite (proj1 (Hin2 b ltac:(lia))); exact KD1).
+  assert (Kx2 : kids g2 x = pre ++ b :: l2) by (rewrite (proj1 (Hin2 x ltac:(lia))); exact Hk1).
+  assert (Hrow2 : forall i p, nth_error hdp i = Some p -> pget pl2 (b + 1 + N.of_nat i) = Some p /\ kids g2 (b + 1 + N.of_nat i) = []).
+  { intros i p Hi. assert (Hilt : (i < S nf)%nat) by (rewrite <- Hlh; apply nth_error_Some; congruence).
+    destruct (Hrow1 i p Hi) as (A & B0). destruct (Hin2 (b + 1 + N.of_nat i) ltac:(lia)) as (E1 & E2). rewrite E1, E2. auto. }
+  assert (PP2 : pget pl2 (b + 1) = Some (pth_pay h tbl (off + lo + k)) /\ kids g2 (b + 1) = []).
+  { rewrite <- (N.add_0_r (b + 1)). apply (Hrow2 0%nat). reflexivity. }
+  destruct PP2 as (PP2 & KP2).
   apply wp_bind. eapply wp_rdo_rep; [exact H2|exact PS2|discriminate|]. intros aos Hpays _ _ _.
   rewrite (pay_info _ _ Hpays). apply wp_bind. eapply wp_info; [reflexivity|]. cbv beta iota.
   apply wp_bind, wp_get. rewrite (pay_op _ _ Hpays). cbn [sb_pay y_op].
   change (aml_pOpIntScopeBlock =? aml_pOpIntScopeBlock) with true. rewrite orb_true_r.
-  apply wp_bind. eapply (wp_rdf_sib False b [b + 1; b + 2] (b + 3) []); [exact H2|exact KD2|]. intros o' _ _ Hprev _ _. rewrite Hprev. cbn [last].
-  eapply (CNloop_leaf _ b (b + 2) [b + 1] [b + 3] (byt_pay h (off + 1 + k + 4) fl) (aml_pOpBytePrefix, 2, 5));
-    [exact H2|exact KD2|exact PB2|discriminate|exact KB2|reflexivity|].
-  cbn [last].
-  eapply (CNloop_leaf _ b (b + 1) [] [b + 2; b + 3] (pth_pay h tbl (off + 1 + k)) (aml_pOpIntNamePath, 8, 0));
-    [exact H2|exact KD2|exact PP2|discriminate|exact KP2|reflexivity|].
-  cbn [last]. rewrite connectNamed_loop_S, N.eqb_refl. apply wp_ret.
-  (* back in the loop of the enclosing scope: the Device gets its name *)
+  apply wp_bind. eapply (wp_rdf_sib False b (seqN (b + 1) (S nf)) sbi []); [exact H2|exact KD2|]. intros o' _ _ Hprev _ _. rewrite Hprev.
+  (* the name path and the fixed arguments are stepped over *)
+  replace (S (S (S (S (nf + f'))))) with (length (seqN (b + 1) (S nf)) + S (S (S f')))%nat by (rewrite seqN_len; lia).
+  eapply (conn_leaves (seqN (b + 1) (S nf)) _ b [sbi] _ g2 pl2); [exact H2|exact KD2| |].
+  { intros d Hd. apply seqN_in in Hd.
+    assert (Ei : exists i, d = b + 1 + N.of_nat i /\ (i < S nf)%nat) by (exists (N.to_nat (d - (b + 1))); lia).
+    destruct Ei as (i & -> & Hi). destruct (nth_error hdp i) as [p|] eqn:Ep; [|apply nth_error_None in Ep; lia].
+    destruct (Hrow2 i p Ep) as (A & B0). destruct (hd_rows bk off k fa p (nth_error_In _ _ Ep)) as (row & Hr & Hlp).
+    split; [exact B0|]. exists p, row. auto. }
+  (* back in the loop of the enclosing scope: the object gets its name *)
   change (negb (pres_eqb ROk ROk)) with false. cbv iota zeta.
-  apply wp_bind. eapply wp_rdo_rep; [exact H2|exact PD2|discriminate|]. intros aod Hpayd _ Hfirst _.
-  rewrite (pay_info _ _ Hpayd). apply wp_bind. eapply wp_info; [reflexivity|]. cbv beta iota.
-  apply wp_bind, wp_get. rewrite (pay_th _ _ Hpayd), (pay_op _ _ Hpayd), Hfirst, KD2. cbn [hd mth_pay y_th y_op]. scbn. rewrite Hh, N.eqb_refl.
-  rewrite (rep_not_Inv _ _ _ _ _ H2 PP2).
-  change (negb (hasFlag 33 aml_pOpFlagNamed) || negb true || false || (aml_pOpMethod =? aml_pOpIntScopeBlock)) with false. cbv iota.
+  apply wp_bind. eapply wp_rdo_rep; [exact H2|exact PD2|exact Hlb|]. intros aod Hpayd _ Hfirst _.
+  rewrite (pay_info _ _ Hpayd). cbn [blk_pay y_info]. apply wp_bind. eapply wp_info; [apply (bk_facts bk)|]. cbv beta iota.
+  apply wp_bind, wp_get. rewrite (pay_th _ _ Hpayd), (pay_op _ _ Hpayd), Hfirst, KD2. cbn [seqN app List.hd blk_pay y_th y_op]. scbn. rewrite Hh, N.eqb_refl.
+  rewrite (rep_not_Inv _ _ _ _ _ H2 PP2). rewrite Hnamed, Hnsb. cbn [negb orb].
   apply wp_bind. eapply wp_objectAt_rep; [exact H2|exact PP2|discriminate|].
   apply wp_bind. eapply wp_rdo_rep; [exact H2|exact PP2|discriminate|]. intros nop Hpayp _ _ _.
   unfold valueBytes. rewrite (pay_val _ _ Hpayp). cbn [pth_pay y_val s_len]. change (4 <? aml_amlNameLen) with false. cbv iota.
-  assert (Hsl : slice_bytes (with_tree (with_tree s t1) t2) tbl (mkSlice (Some (off + 1 + k)) 4) = Ok (seg_bytes seg)).
-  { replace (off + 1 + k) with (lenN (dpre ++ enc_op OP_METHOD ++ enc_pkglen k v)).
-    2:{ rewrite !lenN_app, Hlk, Hoff. change (lenN (enc_op OP_METHOD)) with 1. lia. }
-    eapply (slice_at _ tbls tbl data _ (seg_bytes seg) ([fl] ++ enc_items body ++ enc_items rest ++ dpost)); [exact Htb|exact Hnth| |reflexivity].
+  assert (Hsl : slice_bytes (with_tree (with_tree s t1) t2) tbl (mkSlice (Some (off + lo + k)) 4) = Ok (seg_bytes seg)).
+  { replace (off + lo + k) with (lenN (dpre ++ enc_op (bk_op bk) ++ enc_pkglen k v)).
+    2:{ rewrite !lenN_app, Hlk, Hoff. change (lenN (enc_op (bk_op bk))) with lo. lia. }
+    eapply (slice_at _ tbls tbl data _ (seg_bytes seg) (enc_fx l ++ enc_items body ++ enc_items rest ++ dpost)); [exact Htb|exact Hnth| |reflexivity].
     rewrite Hdata, <- !app_assoc. reflexivity. }
   apply wp_bind. eapply wp_bytesOf'; [exact Hsl|].
   apply wp_bind. unfold setNameFrom. rewrite seg_bytes_nm. cbn [rev app].
-  eapply (wp_wrf_rep False _ _ (ys_name (seg_nm seg))); [exact H2|exact PD2|discriminate|apply st_name|].
+  eapply (wp_wrf_rep False _ _ (ys_name (seg_nm seg))); [exact H2|exact PD2|exact Hlb|apply st_name|].
   intros t3 H3. set (pl3 := pupd pl2 b (ys_name (seg_nm seg))) in *.
   assert (Hlive_b : live t3 b).
-  { apply (R_live_glive _ _ (rep_R _ _ _ H3)). eapply rep_live; [exact H2|exact PD2|discriminate]. }
+  { apply (R_live_glive _ _ (rep_R _ _ _ H3)). eapply rep_live; [exact H2|exact PD2|exact Hlb]. }
   apply wp_bind. eapply wp_tq; [apply (NumArgs_spec _ _ (rep_R _ _ _ H3) b Hlive_b)|].
-  rewrite KD2. cbn [length]. change (N.of_nat 3) with 3.
-  change ((3 =? argCount 17107215) || (argCount 17107215 <=? termArgIndex 17107215)) with true. cbv iota.
+  rewrite Htai, orb_true_r. cbv iota.
   apply wp_bind. eapply (wp_rdf_sib False x pre b l2); [exact H3|exact Kx2|]. intros o3 _ _ Hprev3 _ _. rewrite Hprev3.
-  replace (S (S (S (S (S (S f')))))) with (f - clen (IMeth k seg fl body :: rest))%nat by (cbn [clen]; lia).
+  match goal with |- wp _ (connectNamed_loop ?F _ _) _ _ => replace F with (f - clen (IBlk bk k seg fa body :: rest))%nat by (cbn [length clen]; rewrite ?seqN_len; lia) end.
   apply (K t3 _ _ H3).
   (* the description of the result *)
-  rewrite lay2_cons, lay2_meth, isz_meth, enc_meth. fold v. fold off1. fold B'. fold off'. constructor.
+  rewrite lay2_cons, lay2_blk, isz_blk, enc_blk. fold l nf v. rewrite Hm. fold hdp off1 sbi B' off'. constructor.
   - rewrite Kx2. rewrite map_app. cbn [map ridx]. unfold l2. rewrite <- !app_assoc. reflexivity.
   - apply Forall_app. split.
     + constructor; [|constructor]. constructor.
       * unfold pl3. rewrite pget_pupd, N.eqb_refl, PD2. reflexivity.
-      * exact KD2.
-      * constructor; [|constructor; [|constructor; [|constructor]]].
-        -- constructor; [unfold pl3; rewrite pget_pupd; destruct (N.eqb_spec (b + 1) b); [lia|exact PP2]|exact KP2|constructor].
-        -- constructor; [unfold pl3; rewrite pget_pupd; destruct (N.eqb_spec (b + 2) b); [lia|exact PB2]|exact KB2|constructor].
-        -- constructor; [unfold pl3; rewrite pget_pupd; destruct (N.eqb_spec (b + 3) b); [lia|exact PS2]|exact U1|].
+      * rewrite KD2, map_app, leaf_row_idx, Hlh. reflexivity.
+      * apply Forall_app. split.
+        -- apply leaf_row_desc. intros i p Hi. assert (Hilt : (i < S nf)%nat) by (rewrite <- Hlh; apply nth_error_Some; congruence).
+           destruct (Hrow2 i p Hi) as (A & B0). split; [|exact B0]. unfold pl3. rewrite pget_pupd. destruct (N.eqb_spec (b + 1 + N.of_nat i) b); [lia|exact A].
+        -- constructor; [|constructor]. constructor; [unfold pl3; rewrite pget_pupd; destruct (N.eqb_spec sbi b); [unfold sbi in *; lia|exact PS2]|exact U1|].
            apply (Desc_frame_l g2 pl2); [exact U2|]. intros y Hy. apply lay2_nodes in Hy. split; [reflexivity|].
            unfold pl3. rewrite pget_pupd. destruct (N.eqb_spec y b); [lia|reflexivity].
     + apply (Desc_frame_l g1 pl1); [exact Q2|]. intros y Hy. apply lay2_nodes in Hy. unfold B' in Hy.
-      split; [apply U3; lia|]. unfold pl3. rewrite pget_pupd. destruct (N.eqb_spec y b); [lia|]. apply U4. lia.
-  - intros y Hy Hyx. rewrite iszs_cons, isz_meth in Hy. rewrite U3 by lia. apply Q3; [unfold B'; lia|exact Hyx].
-  - intros y Hy. rewrite iszs_cons, isz_meth in Hy. unfold pl3. rewrite pget_pupd. destruct (N.eqb_spec y b); [lia|]. rewrite U4 by lia. apply Q4. unfold B'. lia.
+      split; [apply U3; unfold sbi; lia|]. unfold pl3. rewrite pget_pupd. destruct (N.eqb_spec y b); [lia|]. apply U4. lia.
+  - intros y Hy Hyx. rewrite iszs_cons, isz_blk in Hy. fold l nf in Hy. rewrite U3 by (unfold sbi; lia). apply Q3; [unfold B'; lia|exact Hyx].
+  - intros y Hy. rewrite iszs_cons, isz_blk in Hy. fold l nf in Hy. unfold pl3. rewrite pget_pupd. destruct (N.eqb_spec y b); [lia|]. rewrite U4 by lia. apply Q4. unfold B'. lia.
 Qed.
 
 Theorem cspec_all : forall its, CSpec its.
 Proof.
-  induction its as [|d rest IH|k seg body rest IHb IH|k seg fl body rest IHb IH] using items_ind.
+  induction its as [|d rest IH|bk k seg fa body rest IHb IH] using items_ind.
   - apply cspec_nil.
   - apply cspec_name. exact IH.
-  - apply cspec_dev; assumption.
-  - apply cspec_meth; assumption.
+  - apply cspec_blk; assumption.
 Qed.
 End ConnSpec.
